@@ -777,13 +777,46 @@ def fam_hostile(r, n):
         lines += ["def host_%d(v: Any, items: List[Any]) -> None:" % n, "    try:", "        raise ValueError(v)", "    except (ValueError, KeyError) as e:", "        reveal_type(e)", "    except* TypeError as eg:", "        pass", ""]
         # `except*` mixed with `except` is a SyntaxError: keep the program valid
         lines = [l for l in lines if "except*" not in l and l.strip() != "pass"] + [""]
+    elif kind == 5 and r.chance(0.5):
+        what = r.choice(["__getattr__", "__eq__", "__hash__", "__repr__"])
+        sig = {"__repr__": "(self) -> str", "__eq__": "(self, other: object) -> bool", "__hash__": "(self) -> int", "__getattr__": "(self, name: str) -> Any"}[what]
+        lines += ["from typing import overload", "", "class Evil:", "    def %s%s:" % (what, sig), "        raise KeyError(\"evil %d\")" % n, "", "EVIL = Evil()", "",
+                  "@overload", "def evil_pick_%d(x: EVIL) -> int: ..." % n, "@overload", "def evil_pick_%d(x: str) -> str: ..." % n, "def evil_pick_%d(x: object) -> object:" % n, "    return x", "",
+                  "def evil_default_%d(x: int = EVIL, *, y: EVIL = 1) -> EVIL:" % n, "    return x", "",
+                  "def host_%d() -> None:" % n, "    reveal_type(evil_pick_%d(1))" % n, "    reveal_type(evil_pick_%d(\"a\"))" % n, "    reveal_type(evil_default_%d())" % n, "    evil_default_%d(\"s\", y=2)" % n, ""]
     else:
         lines += ["import functools", "", "@functools.lru_cache(maxsize=None)", "def cached_%d(x: int) -> int:" % n, "    return x", "", "class Weird:", "    __slots__ = (\"a\",)", "    def __init__(self) -> None:", "        self.a = %d" % n, "",
                   "def host_%d(w: Weird) -> None:" % n, "    reveal_type(cached_%d(1))" % n, "    cached_%d(\"s\")" % n, "    reveal_type(w.a)", "    w.b = 2", "    reveal_type(cached_%d.cache_info())" % n, ""]
     return lines
 
 
+def fam_local_overloads(r, n):
+    """Overloads and evaluated functions DEFINED by the program itself (runtime registries keyed by
+    qualified name), same function names in every program."""
+    T = r.choice(["int", "str", "bytes", "float"])
+    U = r.choice(["int", "str", "bytes", "float"])
+    lit = TYPED_EXPR
+    kind = r.below(3)
+    if kind == 0:
+        lines = ["from typing import Union, overload", "",
+                 "@overload", "def double(x: %s) -> %s: ..." % (T, T), "@overload", "def double(x: %s, times: int = ...) -> List_%d: ..." % (U, n),
+                 "def double(x: object, times: int = 2) -> object:", "    return x", ""]
+        lines = ["from typing import List", "List_%d = List[%s]" % (n, U), ""] + lines
+    elif kind == 1:
+        lines = ["from typing import Union", "from pyanalyze.extensions import overload", "",
+                 "@overload", "def double(x: %s) -> %s:" % (T, T), "    raise NotImplementedError", "", "@overload", "def double(x: %s) -> %s:" % (U, U), "    raise NotImplementedError", "",
+                 "def double(x: object) -> object:", "    return x", ""]
+    else:
+        lines = ["from typing import Union", "from pyanalyze.extensions import evaluated, is_of_type, show_error", "",
+                 "@evaluated", "def double(x: object):", "    if is_of_type(x, %s):" % T, "        return %s" % T, "    elif is_of_type(x, %s):" % U, "        show_error(\"no %s please\", argument=x)" % U, "        return %s" % U,
+                 "    else:", "        return None", ""]
+    lines += ["def use_double_%d(u: Union[%s, %s], v: object) -> None:" % (n, T, U) if T != U else "def use_double_%d(u: %s, v: object) -> None:" % (n, T),
+              "    reveal_type(double(%s))" % lit[T], "    reveal_type(double(%s))" % lit[U], "    reveal_type(double(u))", "    reveal_type(double(v))", "    double(b\"raw\", 3, 4)", ""]
+    return lines
+
+
 FAMILIES = {
+    "local_overloads": fam_local_overloads,
     "inheritance": fam_inheritance,
     "hostile": fam_hostile,
     "alias695": fam_alias695,
